@@ -584,6 +584,52 @@ def u_multicategorical(ctx, which):
             _raises(ctx, "multicategorical", "vmap", e, {"form": form, "dims": dims})
             return None, None
 
+    def direct_batch(form, dims, P, out):
+        """The same B parameter rows given to ONE law with a leading batch axis (no vmap), as policies that
+        receive batched observations do: every batched answer must be the per-row answer already judged."""
+        kind = "logits" if "logits" in form else "probs"
+        cuts = np.cumsum(dims)[:-1]
+        Pj = jnp.asarray(P)
+        pieces = [Pj[:, a:b] for a, b in zip([0, *cuts], [*cuts, sum(dims)])]
+        desc = {"class": "MultiCategorical", "form": form, "dims": list(dims), "mode": "batched-parameters", "B": len(P),
+                "h": digest(P)}
+        try:
+            if form.startswith("flat"):
+                d = MultiCategorical(**{kind: Pj}, action_dims=dims)
+            elif form.endswith("+dims"):
+                d = MultiCategorical(**{kind: list(pieces)}, action_dims=list(dims))
+            else:
+                d = MultiCategorical(**{kind: tuple(pieces)})
+            ent, mode = np.asarray(d.entropy()), np.asarray(d.mode())
+            vals = jnp.asarray(np.asarray(out["ss"])[:, 0, :])  # one judged sample per row
+            lp, pr = np.asarray(d.log_prob(vals)), np.asarray(d.prob(vals))
+            s2, l2 = d.sample_and_log_prob(ctx.key(77))
+            l2b = np.asarray(d.log_prob(s2))
+            s2, l2 = np.asarray(s2), np.asarray(l2)
+        except Exception as e:
+            _raises(ctx, "multicategorical", "batched-parameters", e, desc)
+            return
+        ctx.case(desc, nontrivial=True, cls=f"MultiCategorical/{form}/{'x'.join(map(str, dims))}/batched-parameters")
+        ctx.monitor("multicategorical_batched_parameter_laws")
+        B_, k = len(P), len(dims)
+        want_ent, want_mode = np.asarray(out["ent"], np.float64), np.asarray(out["mode"])
+        want_lp = np.asarray(out["sl"], np.float64)[:, 0]
+        if ent.shape != (B_,) or mode.shape != (B_, k) or lp.shape != (B_,) or s2.shape != (B_, k) or l2.shape != (B_,):
+            ctx.violation("multicategorical-batched-parameters-shape",
+                          {"case": desc, "entropy": ent.shape, "mode": mode.shape, "log_prob": lp.shape, "sample": s2.shape})
+            return
+        if np.any(np.abs(ent - want_ent) > 1e-5 * k + 1e-5 * np.abs(want_ent)):
+            ctx.violation("multicategorical-batched-entropy-not-per-row", {"case": desc, "got": ent, "want": want_ent})
+        if not np.array_equal(mode.astype(np.int64), want_mode.astype(np.int64)):
+            ctx.violation("multicategorical-batched-mode-not-per-row", {"case": desc, "got": mode, "want": want_mode})
+        fin = np.isfinite(want_lp)
+        if np.any(np.abs(lp[fin] - want_lp[fin]) > 1e-4 + 1e-5 * np.abs(want_lp[fin])) or np.any(np.abs(pr[fin] - np.exp(want_lp[fin])) > 1e-5):
+            ctx.violation("multicategorical-batched-log-prob-not-per-row", {"case": desc, "got": lp, "want": want_lp})
+        if np.any(s2 < 0) or np.any(s2 >= np.asarray(dims)[None, :]):
+            ctx.violation("multicategorical-batched-sample-outside-support", {"case": desc, "sample": s2})
+        elif np.any(np.abs(l2 - l2b) > 1e-4 + 1e-5 * np.abs(l2b)):
+            ctx.violation("multicategorical-batched-sample-and-log-prob-inconsistent", {"case": desc, "got": l2, "want": l2b})
+
     B = ctx.n(4, 48)
     ki = 0
     for dims in MC_DIMS:
@@ -599,6 +645,9 @@ def u_multicategorical(ctx, which):
                 continue
             for b in range(B):
                 judge(form, dims, P[b], jax.tree.map(lambda v: v[b], out), support_of(dims), how)
+            direct_batch(form, dims, P, out)
+            if len(dims) > 1:
+                direct_batch(form, dims, P[: len(dims)], jax.tree.map(lambda v: v[: len(dims)], out))  # B == components
             if ki % 3 == 0 or not ctx.quick:
                 try:
                     one, support = make(form, dims, 2048)
@@ -630,6 +679,7 @@ def u_multicategorical(ctx, which):
     ctx.require("product_law_points", 100)
     ctx.require("chi_square_tests", 10)
     ctx.require("multicategorical_cases_above_128_classes", 2)
+    ctx.require("multicategorical_batched_parameter_laws", 4)
 
 
 # --------------------------------------------------------------------------------------
@@ -690,7 +740,7 @@ def squashed_geom(loc, sc, lo, hi, m=M_GRID):
             t = 4 * EPS32 * (kappa + 1.0) / (u * (1 - u)) * (np.abs(x - loc) / (sc * sc) + 1.0)
         return np.where((u > 0) & (u < 1), t, np.inf)
     return dict(xg=xg, h=float(xg[1] - xg[0]), yg=(lo + w * s).astype(np.float32), jac=w * s * (1 - s), to_x=to_x, lo=lo, hi=hi,
-                full=bool(full), R=R, lp_ref=None, ent_ref=None, slp_tol=slp_tol, kappa=kappa)
+                full=bool(full), R=R, lp_ref=None, ent_ref=None, slp_tol=slp_tol, kappa=kappa, loc=loc, sc=sc)
 
 
 def judge_1d(ctx, cls, desc, g, o, entropy_error=None):
@@ -787,6 +837,14 @@ def judge_1d(ctx, cls, desc, g, o, entropy_error=None):
                 i = int(np.argmax(outside))
                 bad(f"{name}-outside-support", {"count": int(outside.sum()), "of": len(smp), "example": smp[i]})
                 continue
+        if g.get("sc") is not None:
+            # no point masses other than float32 saturation: every repeated value against its own cell probability
+            from vlib.c15_helpers import squashed_atoms
+
+            atom, nv = squashed_atoms(smp, g["loc"], g["sc"], g["lo"], g["hi"])
+            ctx.monitor("repeated_sample_values_judged_as_atoms", nv)
+            if atom is not None:
+                bad(f"{name}s-have-a-point-mass-the-density-does-not", atom)
         if judged_global and abs(mass - 1) < 0.5:
             u = np.interp(g["to_x"](smp), g["xg"], F / mass, left=0.0, right=1.0)
             dks, pval = ks_against_cdf(u)
@@ -1137,6 +1195,14 @@ def judge_nd(ctx, cls, desc, geoms, o, pts, grids2=None, entropy_error=None):
         if outside.any():
             bad(f"{name}-outside-support", {"count": int(outside.sum()), "of": len(smp), "example": smp[int(np.argmax(outside))]})
             continue
+        if geoms[0].get("sc") is not None:
+            from vlib.c15_helpers import squashed_atoms
+
+            for j, g in enumerate(geoms):
+                atom, nv = squashed_atoms(smp[:, j], g["loc"], g["sc"], g["lo"], g["hi"])
+                ctx.monitor("repeated_sample_values_judged_as_atoms", nv)
+                if atom is not None:
+                    bad(f"{name}s-have-a-point-mass-the-density-does-not", dict(atom, dimension=j))
         if judged_global:
             for j, (g, F, mass_j) in enumerate(marg):
                 if not abs(mass_j - 1) < 0.5:
